@@ -162,4 +162,62 @@ def holdsF (lateFlush : Bool) (o : FObs) : Bool :=
   o.cnt == o.del && (if lateFlush then decide (o.statS ≤ o.del) else o.statS == o.del) &&
   o.statR == 0 && o.leak == 0
 
+/-! ### Start ‖ Close: after every call returned and pending I/O was unblocked, either the tunnel
+is Connected and nothing was closed, or it is Closed, the close sequence ran exactly once, nothing
+that Start spawned remains, and if Start reported success the tunnel's context is cancelled and
+the dispose latch is closed. -/
+
+structure UObs where
+  state : Nat
+  closes : Nat
+  startOk : Bool
+  live : Nat              -- goroutines spawned by Start that are still alive
+  ctxDone : Bool
+  isClosed : Bool
+  deriving DecidableEq, Repr
+
+def uObs (c : Cfg UShared ULocal) : UObs :=
+  { state := c.sh.state, closes := c.sh.closes, startOk := c.sh.startRes == 1,
+    live := if c.sh.state == 3 && c.sh.spawned && !c.sh.ctxCancelled then 2 else 0,
+    ctxDone := c.sh.ctxBound && c.sh.ctxCancelled, isClosed := c.sh.disposed }
+
+def holdsU (o : UObs) : Bool :=
+  (o.state == 1 && o.closes == 0 && o.startOk) ||
+  (o.state == 3 && o.closes == 1 && o.live == 0 && (!o.startOk || (o.ctxDone && o.isClosed)))
+
+/-! ### Close against a background loop that is mid-tick: once Close returned and the pending I/O
+was unblocked, the loop's goroutine is gone and the component is closed. -/
+
+structure GObs where
+  live : Nat              -- background goroutines of the component still alive
+  closed : Bool
+  deriving DecidableEq, Repr
+
+def gObs (c : Cfg GShared GLocal) : GObs :=
+  { live := match c.ths[1]? with
+      | some l => if l.pc == GPc.done then 0 else 1
+      | none => 0,
+    closed := c.sh.latch }
+
+def holdsG (o : GObs) : Bool := o.live == 0 && o.closed
+
+/-! ### Late attach: after the last Close returned, every connection that was attached to the
+bridge has been closed exactly once (none is still attached). -/
+
+structure AObs where
+  satt : Nat
+  stc : Nat
+  tatt : Nat
+  ttc : Nat
+  lostS : Nat
+  lostT : Nat
+  open_ : Nat             -- attached connections that were never closed and are still referenced
+  deriving DecidableEq, Repr
+
+def aObs (sh : AShared) : AObs :=
+  ⟨sh.satt, sh.stc, sh.tatt, sh.ttc, sh.lostS, sh.lostT, b2n sh.srcTC + b2n sh.tgtTC⟩
+
+def holdsA (o : AObs) : Bool :=
+  o.open_ == 0 && o.stc + o.lostS == o.satt && o.ttc + o.lostT == o.tatt
+
 end Tunnox.C16
